@@ -33,6 +33,12 @@ Verdict(r) ==
             ELSE IF ~SameText(kind, r.in, r.out) THEN "not-one-string-per-value"
             ELSE IF r.ser # r.out THEN "serde-form-differs"
             ELSE "ok"
+    [] r.fn = "keyobj" ->      \* Key::from_str: a key object comes only out of well-formed PASERK text of its own version and kind
+         LET p == ParseText(r.kind, BeVer(r.be), r.in, TRUE)
+         IN IF r.panic THEN "panic"
+            ELSE IF r.ok /\ ~p.ok THEN "key-accepted-from-malformed-text"
+            ELSE IF r.ok /\ BeVer(r.be) # 1 /\ ~SameText(r.kind, r.in, r.out) THEN "not-one-string-per-value"
+            ELSE "ok"
     [] OTHER -> "unknown-record"
 
 ObsOK == i <= 0 \/ LET v == Verdict(Rec[i]) IN v = "ok" \/ PrintT(<<"VIOL", i, v>>)
